@@ -48,14 +48,15 @@ var c11Scripts = []struct {
 }
 
 type c11Exec struct {
-	script    int
-	via       string // exec | step | walk
-	mode      int    // error routing for step/walk: 0 none, 1 branches, 2 node
-	deadline  time.Duration
-	cancelAt  int // >0: cancel() is called inside the N-th tick
-	tickD     time.Duration
+	script      int
+	via         string // exec | step | walk
+	mode        int    // error routing for step/walk: 0 none, 1 branches, 2 node
+	deadline    time.Duration
+	cancelAt    int // >0: cancel() is called inside the N-th tick
+	tickD       time.Duration
 	farDeadline bool // cancel plans: the context also has a deadline, an hour away
-	longLived bool // run under the long-lived parent context (terminating scripts only)
+	longLived   bool // run under the long-lived parent context (terminating scripts only)
+	guardLoop   bool // step/walk only: the action fails at once and the guard of its error branch never ends
 }
 
 func runC11(c *sim.Ctx, t *testing.T) {
@@ -76,6 +77,10 @@ func runC11(c *sim.Ctx, t *testing.T) {
 		}
 		if !c11Scripts[p.script].endless && p.cancelAt == 0 && c.Bool("longlived") {
 			p.longLived = true
+		}
+		if p.via != "exec" && !p.longLived && c.Chance(1, 6, "guardloop") {
+			p.guardLoop = true
+			p.mode = 1
 		}
 		plans[i] = p
 	}
@@ -101,6 +106,10 @@ func runC11(c *sim.Ctx, t *testing.T) {
 				if i := strings.LastIndex(task, "."); i > 0 {
 					if _, seen := interruptAt[task[:i]]; !seen {
 						interruptAt[task[:i]] = lg.Len()
+					}
+					// (per watcher, too: a step with a guard runs two executions)
+					if _, seen := interruptAt[task]; !seen {
+						interruptAt[task] = lg.Len()
 					}
 				}
 			}
@@ -157,6 +166,12 @@ func runC11(c *sim.Ctx, t *testing.T) {
 						spec.ActionErrorBranches = true
 					case 2:
 						spec.ActionErrorNode = "aerr"
+					}
+					if p.guardLoop {
+						spec.Nodes["a"].ActionSource.Source = `_.props.tick(); throw new Error("boom");`
+						spec.Nodes["a"].Branches.Branches = []*core.Branch{
+							{Pattern: map[string]interface{}{"actionError": "?e"}, GuardSource: &core.ActionSource{Interpreter: "ecmascript", Source: `for (;;) { _.props.tick(); }`}, Target: "b"},
+							{Target: "b"}}
 					}
 					// a host compiles its specs once, long before (and under another context than) any step
 					if err := spec.Compile(context.Background(), core.InterpretersMap{"ecmascript": interp}, true); err != nil {
@@ -226,7 +241,7 @@ func runC11(c *sim.Ctx, t *testing.T) {
 		name := fmt.Sprintf("x%d", i)
 		sc := c11Scripts[p.script]
 		desc := fmt.Sprintf("execution %d: script %q via %s (error mode %d), deadline %v, cancel at tick %d, tick %v", i, sc.name, p.via, p.mode, p.deadline, p.cancelAt, p.tickD)
-		shape += fmt.Sprintf("%s/%s/%d/%v/%d/%v;", sc.name, p.via, p.mode, p.deadline, p.cancelAt, p.longLived)
+		shape += fmt.Sprintf("%s/%s/%d/%v/%d/%v/%v;", sc.name, p.via, p.mode, p.deadline, p.cancelAt, p.longLived, p.guardLoop)
 		c.Count("executions")
 		if !o.returned {
 			c.Violate("timeout:still-running", "%s: did not return within %v of simulated time / %d scheduler steps", desc, c.Sched.SimTime, c.Sched.Steps)
@@ -234,6 +249,10 @@ func runC11(c *sim.Ctx, t *testing.T) {
 		}
 		nt, after := 0, 0
 		cut, haveCut := interruptAt[name]
+		if p.guardLoop {
+			// the action's watcher is released when the action has failed; the guard's is the second
+			cut, haveCut = interruptAt[name+".2"]
+		}
 		for _, e := range evs {
 			if e.Kind == "tick" && e.Id == name {
 				nt++
@@ -248,6 +267,12 @@ func runC11(c *sim.Ctx, t *testing.T) {
 			if after > 1 {
 				c.Violate("timeout:ticks-after-interrupt", "%s: %d ticks ran after the interrupt had been delivered", desc, after)
 			}
+		}
+		if p.guardLoop {
+			// the guard of the error branch is what has to be stopped: returning at all (above),
+			// promptly (ticks after the interrupt) and leaving nothing behind (below) is the claim
+			c.Count("looping_guards")
+			continue
 		}
 		if !sc.endless {
 			continue // a terminating script may finish before anybody stops it
